@@ -1232,7 +1232,7 @@ def corruptions(ev):
 # ---------------------------------------------------------------------------------------------------------------
 MC_BASE = {
     "RunKeys": {"", "k1", "k2"}, "Streams": {"primary", "baseline", "interruptions", "mon1"},
-    "Dets": {"det", "det2", "pdet", "apdet"}, "Motors": {"motor", "amotor"}, "Mons": {"mon1"}, "Pausables": {"pdet", "apdet"}, "Flyers": set(),
+    "Dets": {"det", "det2", "pdet", "apdet", "npdet"}, "Motors": {"motor", "amotor"}, "Mons": {"mon1"}, "Pausables": {"pdet", "apdet", "npdet"}, "Flyers": set(),
     "AsyncDevs": set(), "FlyStream": "<- FlyStreamDef", "FlyN": "<- FlyNDef", "NoReplayDevs": set(),
     "ReadVal": "<- ReadValDef", "DataKeys": "<- DataKeysDef", "FutNames": {"f1", "f2"},
     "StreamOrder": "<- StreamOrderDef", "DevOrder": "<- DevOrderDef", "Prog": "<- ProgDef",
@@ -1242,7 +1242,7 @@ MC_BASE = {
 
 def mc_run(ctx, plan_name, *, max_req=2, req_kinds=REQ_KINDS, decisions=DECISIONS, max_faults=0, fault_kinds=(),
            max_calls=1, max_updates=0, record_intr=True, pre=(), post=(), workers=None, timeout=1500, tag=None, async_devs=(), suspenders=(), max_sus_ops=0,
-           flyers=()):
+           flyers=(), noreplay=()):
     """model-check REMC for one program; returns (TLCResult, propviol list)"""
     p = PROGRAMS[plan_name]
     d = ctx.out
@@ -1251,11 +1251,11 @@ def mc_run(ctx, plan_name, *, max_req=2, req_kinds=REQ_KINDS, decisions=DECISION
 EXTENDS REMC
 M(c, o, r, a) == Msg(c, o, r, a)
 ProgDef == {prog_tla(p)}
-XD == {{"det", "det2", "pdet", "motor", "mon1", "amotor", "apdet"}}
+XD == {{"det", "det2", "pdet", "npdet", "motor", "mon1", "amotor", "apdet"}}
 ReadValDef == [d \\in XD |-> CASE d = "motor" -> "dict:motor,motor_setpoint" [] d = "amotor" -> "dict:amotor,amotor_setpoint" [] OTHER -> "dict:" \\o d]
 DataKeysDef == [d \\in XD |-> CASE d = "motor" -> {{"motor", "motor_setpoint"}} [] d = "amotor" -> {{"amotor", "amotor_setpoint"}} [] OTHER -> {{d}}]
 StreamOrderDef == <<{", ".join('"%s"' % x for x in sorted(MC_BASE["Streams"] | {f + "_stream" for f in flyers}))}>>
-DevOrderDef == <<"det", "det2", "mon1", "motor", "pdet", "amotor", "apdet", "fly1", "fly2">>
+DevOrderDef == <<"det", "det2", "mon1", "motor", "pdet", "amotor", "apdet", "fly1", "fly2", "npdet">>
 FlyStreamDef == [f \\in {{"fly1", "fly2"}} |-> f \\o "_stream"]
 FlyNDef == [f \\in {{"fly1", "fly2"}} |-> 2]
 XSus == {{{", ".join('"%s"' % x for x in suspenders)}}}
@@ -1276,7 +1276,7 @@ SuspPostDef == <<{", ".join(tla_msg(m) for m in post)}>>
     consts.update({"MaxReq": max_req, "ReqKinds": set(req_kinds), "MaxFaults": max_faults, "FaultKinds": set(fault_kinds),
                    "Decisions": set(decisions), "MaxCalls": max_calls, "MaxUpdates": max_updates, "RecordIntr": record_intr,
                    "AsyncDevs": set(async_devs), "Suspenders": "<- XSus", "SigOf": "<- SigOfDef", "SusFuts": "<- SusFutsDef",
-                   "MaxSusOps": max_sus_ops, "Flyers": set(flyers), "SusBand": {x for x in suspenders if x == "s3"},
+                   "MaxSusOps": max_sus_ops, "Flyers": set(flyers), "SusBand": {x for x in suspenders if x == "s3"}, "NoReplayDevs": set(noreplay),
                    "Streams": MC_BASE["Streams"] | {f + "_stream" for f in flyers},
                    "FutNames": {"f1", "f2"} | {x + g for x in suspenders for g in "abc"}})
     cfg = write_cfg(sd / f"{name}.cfg", consts, spec="MCSpec", action_constraints=["MCReport"])
@@ -1311,7 +1311,10 @@ MC_JOBS = {
               ("rp0", dict(max_req=1)), ("rp5", dict(max_req=1)),
               # flyers: collect inside the plan, the engine's backstop collection (one more park inside the finally block), two runs
               ("fly_left", dict(max_req=1, flyers=["fly1"])), ("fly", dict(max_req=1, flyers=["fly1"], max_faults=1, fault_kinds=["raise", "nostatus"])),
-              ("declare", dict(max_req=1))],
+              ("declare", dict(max_req=1)),
+              # a suspender with a dead band (signal value 2 neither trips nor releases); a device whose pause() refuses replay
+              ("simple", dict(max_req=0, suspenders=["s3"], max_sus_ops=3)),
+              ("npaus", dict(max_req=1, req_kinds=["pause", "suspend", "abort"], noreplay=["npdet"]))],
     "thorough": [("simple", dict(max_req=2)), ("fin", dict(max_req=2)), ("two", dict(max_req=2, req_kinds=["pause", "suspend", "abort", "defer"])),
                  ("move", dict(max_req=1, max_faults=1, fault_kinds=["raise", "fail", "later", "nostatus"])),
                  ("mon", dict(max_req=1, max_updates=2)), ("multi", dict(max_req=1)), ("defer", dict(max_req=2, req_kinds=["defer", "pause", "abort"])),
@@ -1325,7 +1328,9 @@ MC_JOBS = {
                    ("fly_fin", dict(max_req=2, req_kinds=["pause", "abort", "stop", "halt"], flyers=["fly1"])),
                    ("fly_twice", dict(max_req=1, flyers=["fly1"], max_faults=1, fault_kinds=["raise"])),
                    ("fly_multi", dict(max_req=1, flyers=["fly1", "fly2"], max_updates=1)), ("fly_prep", dict(max_req=1, flyers=["fly1"])),
-                   ("declare", dict(max_req=2, req_kinds=["pause", "suspend", "abort"])), ("declare_mix", dict(max_req=1))],
+                   ("declare", dict(max_req=2, req_kinds=["pause", "suspend", "abort"])), ("declare_mix", dict(max_req=1)),
+                   ("simple", dict(max_req=1, req_kinds=["pause", "abort"], suspenders=["s3"], max_sus_ops=3)),
+                   ("npaus", dict(max_req=2, req_kinds=["pause", "suspend", "abort"], noreplay=["npdet"]))],
 }
 
 
